@@ -247,6 +247,9 @@ class MiniMallocate(RewritePattern):
                     | memref.CastOp
                     | memref.ReinterpretCastOp
                     | memref.MemorySpaceCastOp
+                    | memref.ExpandShapeOp
+                    | memref.CollapseShapeOp
+                    | memref.ViewOp
                     | snax.LayoutCast,
                 ):
                     for result in use.operation.results:
